@@ -5,6 +5,7 @@ import (
 
 	"verifharness/bmx"
 	"verifharness/hx"
+	"verifharness/stx"
 )
 
 func TestC08(t *testing.T) {
@@ -19,4 +20,8 @@ func TestC08(t *testing.T) {
 	run.SetRule("random histories of put/touch/finalize/corrupt(read with a flipped byte) on the real OldCurrentNewLocationBlobMap over the real " +
 		"volatile block list and the block-device allocator with the CAS read buffer factory; non-trivial = at least one block released; distinct by script hash")
 	bmx.Main(run, model, "C08", 12, run.Report)
+	// the same property at the level of the blob access: a flipped byte on the medium is read through the real
+	// flat CAS store; objects at or below the quarantined block must no longer be served or reported present
+	stx.Corruption = 8
+	stx.Main(run, model, "C08store", []string{"C08"}, []string{"flat", "flati"}, 1000, 20000)
 }
